@@ -91,13 +91,42 @@ def build(md, spec):
             if i % 4 == 0:
                 res = top.add_residue("ALA", ch)
             top.add_atom(["N", "CA", "C", "O"][i % 4], [E.nitrogen, E.carbon, E.carbon, E.oxygen][i % 4], res)
-        if spec.get("cell") or spec.get("cell_series"):
+        if spec.get("cell") or spec.get("cell_series") or spec.get("cell_angles"):
             base = rng.uniform(-1.0, 4.5, size=(1, n, 3))      # atoms reach well outside the cell: every image matters
         else:
             base = rng.uniform(0, 2.0, size=(1, n, 3))
         xyz = (base + rng.normal(0, 0.15, size=(F, n, 3))).astype(np.float32)
         t = md.Trajectory(xyz, top)
-    if spec.get("cell_series") == "one-component":
+    if spec.get("cell_angles"):
+        # cells given as LENGTHS and ANGLES (Trajectory keeps those and converts to box vectors on every access, for all the
+        # frames it holds at once) whose size varies by a factor ~10 and whose angles are exactly 90, a hair off 90
+        # (tilt component L*cos(angle) of 1e-6 .. 3e-5 nm: right where "almost zero" cut-offs sit), or clearly oblique:
+        #   s small + near-90   L large (20-40 nm) + exactly 90   l large + near-90   X small oblique   O small rectangular
+        # anything in the conversion that is decided from all frames together (a tolerance scaled by the largest cell, a
+        # kind decided once) changes a frame's box vectors with its company
+        F = t.n_frames
+        rng = np.random.RandomState(spec.get("cell_seed", 5))
+        pat = spec["cell_angles"]
+        lo, hi = spec.get("cell_size", [2.6, 3.4])
+        Ls = np.zeros((F, 3), dtype=np.float64)
+        An = np.full((F, 3), 90.0, dtype=np.float64)
+        for f in range(F):
+            k = pat[f % len(pat)]
+            if k in "Ll":
+                Ls[f] = rng.uniform(20.0, 40.0, size=3)
+            else:
+                Ls[f] = rng.uniform(lo, hi, size=3)
+            if k in "sl":
+                which = rng.rand(3) < 0.6
+                if not which.any():
+                    which[rng.randint(3)] = True
+                delta = 10.0 ** rng.uniform(np.log10(3e-5), np.log10(6e-4), size=3) * rng.choice([-1.0, 1.0], size=3)
+                An[f] = 90.0 + np.where(which, delta, 0.0)
+            elif k == "X":
+                An[f] = rng.uniform(75.0, 105.0, size=3)
+        t.unitcell_lengths = Ls.astype(np.float32)
+        t.unitcell_angles = An.astype(np.float32)
+    elif spec.get("cell_series") == "one-component":
         # a sheared cell in which exactly ONE of the six independent components of the box matrix changes from a frame to
         # the next (a_x, b_x, b_y, c_x, c_y, c_z in turn) while all others keep their value: "has the box changed?"
         # shortcuts that look at part of the box, and anything cached from the previous frame, show up
@@ -171,6 +200,9 @@ def analyses(md, t0):
     A["angles"] = lambda t: list(md.compute_angles(t, trip, periodic=False))
     A["dihedrals"] = lambda t: list(md.compute_dihedrals(t, quad, periodic=False))
     if has_box:
+        # the cell itself, as every periodic analysis reads it
+        A["unitcell_vectors"] = lambda t: list(t.unitcell_vectors)
+        A["unitcell_volumes"] = lambda t: list(t.unitcell_volumes)
         A["displacements_pbc"] = lambda t: list(md.compute_displacements(t, pairs, periodic=True))
         A["distances_pbc_noopt"] = lambda t: list(md.compute_distances(t, pairs, periodic=True, opt=False))
         A["displacements_pbc_noopt"] = lambda t: list(md.compute_displacements(t, pairs, periodic=True, opt=False))
